@@ -573,13 +573,135 @@ def _product_spaces(thorough):
     return out
 
 
+def one_field_variants(thorough):
+    """Systematic near-misses: for a base object of every composite class one variant per
+    defining field that differs in THAT field only (and is otherwise value-equal).
+
+    Returns a list of (class, field, base_recipe, variant_recipe); the recipes enter the universe,
+    so every == / != / hash / `in` / element() clause is exercised on pairs that differ in
+    exactly one field, in both operand orders.
+    """
+    out = []
+
+    def add(cls, field, base, *variants):
+        for v in variants:
+            out.append((cls, field, base, v))
+
+    # IntervalProd: min_pt, max_pt (1-d and one axis of 2-d)
+    add('IntervalProd', 'min_pt', ('IP', 0, 1), ('IP', -0.25, 1))
+    add('IntervalProd', 'max_pt', ('IP', 0, 1), ('IP', 0, 1.5))
+    b = ('IP', (0, 0), (1, 2))
+    add('IntervalProd', 'min_pt', b, ('IP', (-0.5, 0), (1, 2)), ('IP', (0, -0.5), (1, 2)))
+    add('IntervalProd', 'max_pt', b, ('IP', (0, 0), (1.5, 2)), ('IP', (0, 0), (1, 2.5)))
+    # RectGrid: one coordinate vector (first / interior / last node), other axis
+    g = (0, 0.5, 1)
+    b = ('Grid', g, (0, 1))
+    add('RectGrid', 'coord_vectors[0]', b, ('Grid', (-0.5, 0.5, 1), (0, 1)),
+        ('Grid', (0, 0.25, 1), (0, 1)), ('Grid', (0, 0.5, 1.5), (0, 1)))
+    add('RectGrid', 'coord_vectors[1]', b, ('Grid', g, (0, 2)))
+    add('RectGrid', 'coord_vectors[0]', ('Grid', g), ('Grid', (0, 0.25, 1)))
+    # RectPartition: set (same grid) and grid (same set, same shape); the base has all its outer
+    # nodes on the boundary, the variants have none / only one side
+    p1 = ('Part', ('IP', 0, 1), ('Grid', g))
+    set_variants = [('Part', ('IP', -0.25, 1.25), ('Grid', g)),     # = cell-centred uniform
+                    ('Part', ('IP', 0, 1.5), ('Grid', g)), ('Part', ('IP', -0.5, 1), ('Grid', g)),
+                    ('Part', ('IP', -1, 2), ('Grid', g))]
+    add('RectPartition', 'set', p1, *set_variants)
+    add('RectPartition', 'set', ('UPart', 0, 1, 3, True), ('UPart', -0.25, 1.25, 3, False))
+    add('RectPartition', 'grid', p1, ('Part', ('IP', 0, 1), ('Grid', (0, 0.25, 1))),
+        ('Part', ('IP', 0, 1), ('Grid', (0.25, 0.5, 0.75))))
+    q1 = ('Part', ('IP', (0, 0), (1, 1)), ('Grid', g, g))
+    add('RectPartition', 'set', q1, ('Part', ('IP', (0, 0), (1, 1.5)), ('Grid', g, g)),
+        ('Part', ('IP', (-0.25, 0), (1, 1)), ('Grid', g, g)),
+        ('Part', ('IP', (-0.25, -0.25), (1.25, 1.25)), ('Grid', g, g)))
+    add('RectPartition', 'grid', q1, ('Part', ('IP', (0, 0), (1, 1)), ('Grid', g, (0, 0.25, 1))))
+    # DiscretizedSpace: partition.set, partition.grid, tspace (dtype, exponent, weighting), labels
+    t3 = ('TS', 3, 'float64', 'const', 0.5, 2.0)
+    d1 = ('DS', p1, t3, None)
+    add('DiscretizedSpace', 'partition.set', d1, *[('DS', v, t3, None) for v in set_variants[:3]])
+    add('DiscretizedSpace', 'partition.set',
+        ('UD', 0, 1, 3, (('nodes_on_bdry', True), ('weighting', 0.5))), ('UD', -0.25, 1.25, 3, ()))
+    add('DiscretizedSpace', 'partition.grid', d1,
+        ('DS', ('Part', ('IP', 0, 1), ('Grid', (0, 0.25, 1))), t3, None))
+    add('DiscretizedSpace', 'tspace.dtype', d1, ('DS', p1, ('TS', 3, 'float32', 'const', 0.5, 2.0),
+                                                  None))
+    add('DiscretizedSpace', 'tspace.exponent', d1, ('DS', p1, ('TS', 3, 'float64', 'const', 0.5,
+                                                               1.0), None))
+    add('DiscretizedSpace', 'tspace.weighting', d1,
+        ('DS', p1, ('TS', 3, 'float64', 'const', 1.0, 2.0), None),
+        ('DS', p1, ('TS', 3, 'float64', 'arr', 'A3', 2.0), None))
+    add('DiscretizedSpace', 'axis_labels', d1, ('DS', p1, t3, ('t',)))
+    t33 = ('TS', (3, 3), 'float64', 'const', 0.25, 2.0)
+    add('DiscretizedSpace', 'partition.set', ('DS', q1, t33, None),
+        ('DS', ('Part', ('IP', (0, 0), (1, 1.5)), ('Grid', g, g)), t33, None))
+    # ProductSpace: one part, exponent, weighting
+    r2 = ('TS', 2, 'float64', None, None, 2.0)
+    r3 = ('TS', 3, 'float64', None, None, 2.0)
+    r2f = ('TS', 2, 'float32', None, None, 2.0)
+    pb = ('PW', r2, 2, 'arr', 'A2', 2.0)
+    add('ProductSpace', 'spaces', pb, ('PS', (r2, r3), 'arr', 'A2', 2.0, None),
+        ('PS', (r2, r2f), 'arr', 'A2', 2.0, None))
+    add('ProductSpace', 'exponent', pb, ('PW', r2, 2, 'arr', 'A2', 1.0))
+    add('ProductSpace', 'weighting', pb, ('PW', r2, 2, 'arr', 'B2', 2.0),
+        ('PW', r2, 2, 'arr', 'A2c', 2.0), ('PW', r2, 2, 'const', 2.0, 2.0))
+    # weightings: array / const / exponent / callable
+    wb = ('W', 'ArrT', 'A2', 2.0)
+    add('ArrayWeighting', 'array', wb, ('W', 'ArrT', 'B2', 2.0), ('W', 'ArrT', 'A2c', 2.0))
+    add('ArrayWeighting', 'exponent', wb, ('W', 'ArrT', 'A2', 1.0))
+    add('ConstWeighting', 'const', ('W', 'ConstT', 2.0, 2.0), ('W', 'ConstT', 1.0, 2.0))
+    add('ConstWeighting', 'exponent', ('W', 'ConstT', 2.0, 2.0), ('W', 'ConstT', 2.0, 1.0))
+    add('MatrixWeighting', 'matrix', ('W', 'MatB', 'M2', 2.0), ('W', 'MatB', 'M2c', 2.0))
+    add('CustomInner', 'inner', ('W', 'InnerT', 'f', None), ('W', 'InnerT', 'g', None))
+    # tensor spaces: shape, dtype, weighting, exponent
+    add('NumpyTensorSpace', 'shape', r2, r3)
+    add('NumpyTensorSpace', 'dtype', r2, r2f)
+    add('NumpyTensorSpace', 'weighting', r2, ('TS', 2, 'float64', 'const', 2.0, 2.0))
+    add('NumpyTensorSpace', 'exponent', r2, ('TS', 2, 'float64', None, None, 1.0))
+    return out
+
+
+def arrays_used(recipe):
+    """Names of the pool arrays that the object keeps BY REFERENCE according to the documentation
+    (array / matrix weightings: "identical array"); weights given as lists are converted."""
+    out = []
+
+    def walk(r):
+        if not isinstance(r, tuple) or not r:
+            return
+        tag = r[0]
+        if tag == 'W' and r[1] in ('ArrT', 'ArrP', 'ArrB', 'MatB'):
+            out.append(r[2])
+        elif tag == 'TS' and r[3] == 'arr':
+            out.append(r[4])
+        elif tag in ('PW', 'PS') and r[-4 if tag == 'PS' else -3] == 'arr':
+            out.append(r[-3 if tag == 'PS' else -2])
+        elif tag == 'UD' and isinstance(dict(r[4]).get('weighting'), str):
+            out.append(dict(r[4])['weighting'])
+        for e in r[1:]:
+            if isinstance(e, tuple):
+                if e and isinstance(e[0], str) and e[0][:1].isupper():
+                    walk(e)
+                else:
+                    for f in e:
+                        walk(f)
+    walk(recipe)
+    seen = []
+    for n in out:
+        if n not in seen:
+            seen.append(n)
+    return seen
+
+
 def universe(tier):
     """List of recipes, simplest first, unique."""
     th = tier == 'thorough'
     out = []
     seen = set()
+    variants = []
+    for _, _, b, v in one_field_variants(th):
+        variants += [b, v]
     for r in (_sets(th) + _geom(th) + _weightings(th) + _tensor_spaces(th) + _discr_spaces(th)
-              + _product_spaces(th)):
+              + _product_spaces(th) + variants):
         n = name(r)
         if n not in seen:
             seen.add(n)
